@@ -33,6 +33,9 @@ type caseT struct {
 	Vars   []json.RawMessage `json:"variants"` // equivalent spellings of prog
 	Input  json.RawMessage   `json:"input"`
 	Expect exp               `json:"expect"`
+	// EquivOnly: the specification predicts no output for this program (it uses values outside the numeric
+	// model); it only asserts that all spellings are equivalent, so they are compared with each other
+	EquivOnly bool `json:"equivonly"`
 }
 
 func runOne(progRaw json.RawMessage, input []byte) (string, *hx.RunResult, error) {
@@ -136,6 +139,16 @@ func Replay(raw json.RawMessage) hx.Outcome {
 	src, res, err := runOne(c.Prog, input)
 	if err != nil {
 		return hx.Outcome{Fail: &hx.Failure{Sig: "HARNESS-PANIC", What: err.Error()}}
+	}
+	if c.EquivOnly {
+		if res.Panic != nil || res.ParseErr != nil || res.TimedOut {
+			if res.ParseErr != nil {
+				return hx.Outcome{Skipped: true, Note: "rejected by the parser: " + res.ParseErr.Error()}
+			}
+			return hx.Fail("C01/"+c.Mech+"/panic", fmt.Sprintf("panic or hang: %v", res.Panic), nil, res.PanicStk, src)
+		}
+		// the first spelling's own outcome becomes the reference for the others
+		c.Expect = exp{Out: hx.FromBytes(res.Stdout), Status: res.Status, Err: res.Err != nil}
 	}
 	if o := judge(&c, "program", src, res); o != nil {
 		return *o
